@@ -164,6 +164,7 @@ def ob_withdraw_released_only(ctx):
     W.add_wait('3', user, W.batch_id)
     W.st.add(W.hub_balance >= W.prev_hub_balance, W.unbonding <= W.now)
     W.install()
+    raw_scenario(W, 'execute', W.msg('WithdrawUnbonded'), user, querier=hub_querier_template(W))
     n = 0
     for st, res in W.execute(W.msg('WithdrawUnbonded'), user):
         if not is_ok(res):
@@ -276,6 +277,19 @@ def ORACLE(v, scn, out):
                 bad.append('history total != sum of claims')
         if what in ('history_id', 'next_batch', 'unreleased', 'nomint', 'recorded', 'delete'):
             return None
+        return bad
+    if key.startswith('withdraw:'):
+        who = scn['info']['sender']
+        mine0 = {k for k in pre['wait'] if k[0] == who}
+        mine1 = {k for k in post['wait'] if k[0] == who}
+        rel = {i for i, hh in post['hist'].items() if hh.get('released')}
+        for k in sorted(mine0 - mine1):
+            if k[1] not in rel:
+                bad.append('claim on batch %d deleted although the batch is not released' % k[1])
+        if key.endswith('removes_released'):
+            for k in sorted(mine0 & mine1):
+                if k[1] in rel:
+                    bad.append('claim on released batch %d survives the withdrawal' % k[1])
         return bad
     if key.startswith('frame:'):
         changed = [k for k in set(pre['wait']) | set(post['wait']) if pre['wait'].get(k) != post['wait'].get(k)]
